@@ -57,6 +57,15 @@ def pairs(ctx):
 
 
 def run(ctx):
+    try:
+        from ..gamma_consts import compare
+        nsrc, missing, extra = compare()
+        ctx.extra["source_constants"] = nsrc
+        if missing or extra:
+            ctx.mismatch("source audit: float constants of inverse_gamma_lr_impl differ from the constants of the Lean model",
+                         None, {"only_in_source": missing}, {"only_in_model": extra})
+    except Exception as e:
+        ctx.mismatch("source audit of gamma.rs constants failed", None, str(e), None)
     ps = pairs(ctx)
     reqs = [{"op": "gamma", "a": f2b(a), "p": f2b(p)} for a, p in ps]
     impl = run_harness(reqs); model = run_driver(reqs)
